@@ -257,7 +257,7 @@ def h_format(e):
 SKELETONS = {
     'art1': ('article', ['S', 'SS', 'SS', 'SSS', 'S', 'EQ', 'SS', 'EQ', 'FIG', 'S']),
     'art2': ('article', ['S', 'ENUM', 'SS', 'SET', 'S', 'SS', 'APP', 'S', 'SS']),
-    'art3': ('article', ['EQN', 'S', 'EQ', 'EQN']),
+    'art3': ('article', ['EQN', 'S', 'EQ', 'EQNN', 'EQ', 'EQN', 'EQNN', 'EQ']),
     'thm': ('article', ['THMDEF', 'S', 'THM', 'LEM', 'COR', 'S', 'LEM', 'THM', 'COR', 'SS', 'THM', 'SET', 'S', 'THM']),
     'thm2': ('article', ['THMDEF:subsection', 'S', 'SS', 'THM', 'LEM', 'SS', 'THM', 'COR', 'S', 'SS', 'LEM']),
     'bookthm': ('book', ['THMDEF:section', 'C', 'S', 'THM', 'LEM', 'COR', 'S', 'THM', 'C', 'S', 'LEM']),
@@ -329,6 +329,10 @@ def h_doc(e, skel, depth):
                 expect.append(('equation', the('equation')))
             except _OutOfRange:
                 expect.append(('equation', 'skip'))
+        elif it == 'EQNN':
+            # an equation with \nonumber: no number, and the next equation continues the count
+            src.append('\\begin{equation}y\\nonumber\\end{equation}')
+            expect.append(('equation', None))
         elif it.startswith('THMDEF'):
             # theorem numbered within a sectioning unit, lemma sharing the theorem counter, corollary with its own counter
             src[0] = src[0].replace('\\begin{document}', '\\newtheorem{thm}{Theorem}[%s]\\newtheorem{lem}[thm]{Lemma}\\newtheorem{cor}{Corollary}\\begin{document}' % within[0])
